@@ -8,11 +8,12 @@
 From CJ Require Export Common.Base.
 
 (* ---------- the configuration file as the decoder sees it ---------- *)
-Inductive kv := Unset | Zero | Valid (n : N) | Malformed.
+Inductive kv := Unset | Zero | Valid (n : N) | Malformed | Negative.
 (* meaning per key:
    durations (strings)  Unset = key absent, Zero = "", Valid n = a duration time.ParseDuration accepts,
                         Malformed = a string it rejects
-   integers / booleans  Unset = absent, Zero = 0 / false, Valid n = n / true, Malformed = wrong TOML type
+   integers / booleans  Unset = absent, Zero = 0 / false, Valid n = n / true, Malformed = wrong TOML type,
+                        Negative = a negative integer (Go int; only generated for the two cache capacities)
    GeoIP paths          Unset = absent, Zero = "", Valid = a database that opens, Malformed = a path that does not *)
 Inductive entry := EValid (n : N) | EMal.     (* list entry: the n-th probe subnet / pattern, or one that does not parse *)
 
@@ -41,11 +42,12 @@ Record policy := mkPol {
   p_block : list N; p_allow : list N; p_phantom : list N; p_domains : list N;
   p_public : bool }.
 Record conf := mkConf {
-  c_dur_live : kv; c_cap_live : N; c_dur_non : kv; c_cap_non : N;
+  c_dur_live : kv; c_cap_live : Z; c_dur_non : kv; c_cap_non : Z;
   c_workers : N; c_policy : policy; c_geo_cc : kv; c_geo_asn : kv }.
 
 Definition type_error (k : kv) : bool := match k with Malformed => true | _ => false end.
 Definition int_of (k : kv) : N := match k with Valid n => n | _ => 0 end.
+Definition z_of (k : kv) : Z := match k with Valid n => Z.of_N n | Negative => (-1)%Z | _ => 0%Z end.
 Definition bool_of (k : kv) : bool := match k with Valid _ => true | _ => false end.
 
 (* ParseBlocklists (fixed code): an entry that does not parse fails the load *)
@@ -77,7 +79,7 @@ Definition parse_config (f : file) : res conf :=
       if type_error (r_cap_live r) || type_error (r_cap_non r) || type_error (r_workers r) || type_error (r_public r)
       then Err EType
       else bind (parse_blocklists r) (fun p =>
-           Ok (mkConf (r_dur_live r) (int_of (r_cap_live r)) (r_dur_non r) (int_of (r_cap_non r))
+           Ok (mkConf (r_dur_live r) (z_of (r_cap_live r)) (r_dur_non r) (z_of (r_cap_non r))
                       (int_of (r_workers r)) p (r_geo_cc r) (r_geo_asn r)))
   end.
 
@@ -95,12 +97,14 @@ Definition phantom_blocked (p : policy) (n : N) : bool := memN n (p_phantom p).
 (* ---------- liveness tester construction (liveness.New / Init, fixed code) ---------- *)
 Inductive ckind := KMap | KLru.
 Inductive tester := TUncached | TCached (live nonlive : option ckind).
-Definition dur_empty (k : kv) : bool := match k with Unset | Zero => true | _ => false end.
-Definition init_side (d : kv) (cp : N) : res (option ckind) :=
+Definition dur_empty (k : kv) : bool := match k with Unset | Zero => true | _ => false end.   (* a negative duration is a valid one *)
+(* capacity 0: map; any other capacity: LRU (a non-positive size falls back to defaultSizeLRU, so the
+   constructor never fails and the interface never holds a nil *lruCache) *)
+Definition init_side (d : kv) (cp : Z) : res (option ckind) :=
   match d with
   | Unset | Zero => Ok None
   | Malformed => Err EFatalLiveness
-  | Valid _ => Ok (Some (if cp =? 0 then KMap else KLru))
+  | Valid _ | Negative => Ok (Some (if (cp =? 0)%Z then KMap else KLru))
   end.
 Definition new_tester (c : conf) : res tester :=
   if dur_empty (c_dur_live c) && dur_empty (c_dur_non c) then Ok TUncached
